@@ -25,7 +25,6 @@ from harness.util import import_df, js, attempt
 df = import_df()
 
 POS_TAG = "C08-pos-returns-self"
-NPBOOL_TAG = "C08-npbool-constant-rejected"
 ID0 = 100          # cell ids start here so that a padding constant is never mistaken for an id
 
 UN_CTOR = dict(neg="UNeg", abs="UAbs", comp="UComp", norm="UNorm", orient="UOrient", real="UReal",
@@ -142,9 +141,10 @@ def checked(desc, containers, fn):
     before = [copy.deepcopy(x) for x in containers]
     out = fn()
     for a, b in zip(containers, before):
-        same = (np.array_equal(np.asarray(a, dtype=object), np.asarray(b, dtype=object))
+        same = (type(a) is type(b) and np.array_equal(np.asarray(a, dtype=object), np.asarray(b, dtype=object))
                 if not isinstance(a, dict) else
-                (list(a.keys()) == list(b.keys()) and all(np.array_equal(a[k], b[k]) for k in a)))
+                (list(a.keys()) == list(b.keys()) and
+                 all(type(a[k]) is type(b[k]) and np.array_equal(a[k], b[k]) for k in a)))
         if not same:
             ARG_CHANGED.append(desc)
     return out
@@ -1380,10 +1380,8 @@ def run_setter(c):
         rec.update(obs=dict(err=f), key=f"setter/rej/{c['v'][0]}", size=1,
                    coq=f"CSetter {g.nl(n)} {coqv} None false {g.b(vals_same)} false")
         if isinstance(pyv, np.bool_):
-            # a Boolean constant is a constant whatever its representation (known finding while it is rejected)
+            # a Boolean constant is a constant whatever its representation (repaired in /repo; clause armed)
             rec["oracle"].append("numpy-bool-constant-rejected")
-            rec["tags"].append(NPBOOL_TAG)
-            rec["coq"] = None
         return rec
     valid = f.valid
     isbool = valid.dtype == np.bool_
